@@ -753,6 +753,33 @@ def oracle_guards():
         if st in seen:
             fails.append(dict(signature=dict(oracle='guard', guard='negative-index-state'), what=f'the burn-in steps ti={seen[st]} and ti={ti} start from the same generator state (and draw the same numbers)')); break
         seen[st] = ti
+    # the same guards through the container that pairwise transmission uses (ss.multi_random forwards to its members)
+    try:
+        m = ss.multi_random('source', 'target', auto=False)
+        m.init(trace='m', seed=1, sim=sim, slots=slots)
+        u = ss.uids(np.arange(5))
+        st0 = [full_state(x) for x in m.dists]; a = m.rvs(u, u)
+        try:
+            m.rvs(u, u); fails.append(dict(signature=dict(oracle='guard', guard='multi-strict-second-draw'), what='a strict non-auto multi_random drew twice without a jump'))
+        except ss.distributions.DistNotReadyError: pass
+        m.jump()
+        st1 = [full_state(x) for x in m.dists]; c = m.rvs(u, u)
+        if st1 == st0 or np.array_equal(a, c):
+            fails.append(dict(signature=dict(oracle='guard', guard='multi-jump-advances'), what='multi_random.jump() left the member streams where the previous draw started: the next draw repeats it'))
+        ind0 = [x.ind for x in m.dists]; m.jump(delta=3)
+        if [x.ind for x in m.dists] != [i + 3 for i in ind0]:
+            fails.append(dict(signature=dict(oracle='guard', guard='multi-jump-delta'), what=f'multi_random.jump(delta=3) moved the member indices from {ind0} to {[x.ind for x in m.dists]}'))
+        m.jump(to=20)
+        try:
+            m.jump(to=7); fails.append(dict(signature=dict(oracle='guard', guard='multi-backward-jump'), what='multi_random.jump(to=<earlier index>) was accepted without force'))
+        except ss.distributions.DistSeedRepeatError: pass
+        try: m.jump(to=7, force=True)
+        except Exception: fails.append(dict(signature=dict(oracle='guard', guard='multi-forced-jump'), what='a forced backwards jump of a multi_random was refused'))
+        if [x.ind for x in m.dists] != [7, 7]:
+            fails.append(dict(signature=dict(oracle='guard', guard='multi-forced-jump'), what=f'multi_random.jump(to=7, force=True) left the member indices at {[x.ind for x in m.dists]}'))
+        m.reset()
+    except Exception as e:
+        fails.append(dict(signature=dict(oracle='guard', guard='multi-raises'), what=f'the documented multi_random sequence (init, rvs, jump, rvs, jump(delta), jump(to), forced jump, reset) raised {type(e).__name__}: {e}'))
     # auto: successive draws in one step differ, successive steps differ
     d = mk(); d.init(trace='c', seed=1, sim=sim, slots=slots)
     d.jump_dt(ti=1); x1 = d.rvs(5); x2 = d.rvs(5); d.jump_dt(ti=2); x3 = d.rvs(5)
